@@ -55,6 +55,7 @@ func ruleCRASH1(c *Ctx) {
 				continue
 			}
 			par := parents(fd)
+			tableProg, tablePkg = p, pk
 			ast.Inspect(fd.Body, func(m ast.Node) bool {
 				call, ok := m.(*ast.CallExpr)
 				if !ok || !(isPanicCall(info, call) || isAssertFunc(calleeFunc(info, call))) {
@@ -603,6 +604,7 @@ func ruleCRASH3(c *Ctx) {
 		}
 		return out
 	}
+	tableProg, tablePkg = p, pk
 	for _, fd := range allDecls {
 		par := parents(fd)
 		ast.Inspect(fd.Body, func(n ast.Node) bool {
@@ -1726,8 +1728,52 @@ func tokenExclusion(info *types.Info, par map[ast.Node]ast.Node, n ast.Node) (ty
 			handled[k.Name()] = true
 		}
 	}
+	// the table form: `v, ok := T[tok.Type]` with T a constant table, and the node lies where !ok holds:
+	// the token types that reach it are those that are not keys of T
+	if tok == nil && tableProg != nil {
+		root := ast.Node(nil)
+		for q := n; q != nil; q = par[q] {
+			root = q
+		}
+		for _, f := range pathConds(info, par, n) {
+			id, isId := ast.Unparen(f.e).(*ast.Ident)
+			if !isId || !f.neg {
+				continue
+			}
+			okObj := info.Uses[id]
+			ast.Inspect(root, func(m ast.Node) bool {
+				as, isAs := m.(*ast.AssignStmt)
+				if !isAs || len(as.Lhs) != 2 || len(as.Rhs) != 1 || usesObj(info, as.Lhs[1]) != okObj {
+					return true
+				}
+				key, entries, isTbl := constTable(tableProg, tablePkg, as.Rhs[0])
+				if !isTbl {
+					return true
+				}
+				sel, isSel := ast.Unparen(key).(*ast.SelectorExpr)
+				if !isSel || sel.Sel.Name != "Type" || !typeIs(info.TypeOf(sel.X), "simplelexer", "Token") {
+					return true
+				}
+				if o := usesObj(info, sel.X); o != nil {
+					tok = o
+					for _, en := range entries {
+						if en.Key != nil {
+							handled[en.Key.Name()] = true
+						}
+					}
+				}
+				return true
+			})
+		}
+	}
 	return tok, handled
 }
+
+// set by the CRASH rules before they walk internal/parser (constTable needs the package)
+var (
+	tableProg *Program
+	tablePkg  *packages.Package
+)
 
 // constWidth computes High - Low of a slice expression when it is a constant: the variable parts
 // must cancel, after locals have been replaced by the constant they hold at that point (assigned
